@@ -59,7 +59,23 @@ def run(pid, mod, program, chk, repo, extra):
                 tested.append(dict(change=name, fired=fired, keys=[l for l in p.stdout.splitlines() if l.startswith(pid)][:1]))
                 if not fired:
                     blind.append(name)
-        extra["seeded_regression"] = dict(tested=len([t for t in tested if t["fired"] is not None]), fired=len([t for t in tested if t["fired"]]), skipped=len([t for t in tested if t["fired"] is None]), changes=tested)
+        # behaviour-preserving refactors must stay silent
+        import glob
+        false_alarms = []
+        for path in sorted(glob.glob(os.path.join(VERIF, "selftest", "neutral", "*.diff"))):
+            p = subprocess.run([sys.executable, os.path.join(VERIF, "policy", "variant.py"), path, pid], capture_output=True, text=True, env=dict(os.environ, SVGDX_VARIANT_NO_FALLBACK="1"))
+            if p.returncode == 3:
+                tested.append(dict(change="neutral-" + os.path.basename(path)[:-5], fired=None, keys=["patch does not apply to the current tree: skipped"]))
+                continue
+            fired = f"{pid} rc=1" in p.stdout
+            tested.append(dict(change="neutral-" + os.path.basename(path)[:-5], fired=fired, expected="silent", keys=[l for l in p.stdout.splitlines() if l.startswith(pid)][:1]))
+            if fired:
+                false_alarms.append(os.path.basename(path))
+        extra["seeded_regression"] = dict(tested=len([t for t in tested if t["fired"] is not None]), fired=len([t for t in tested if t["fired"] and t.get("expected") != "silent"]), skipped=len([t for t in tested if t["fired"] is None]), changes=tested)
+        for fa in false_alarms:
+            print(f"SELFTEST-FALSE-ALARM property={pid} change={fa}: a behaviour-preserving refactor is reported as a violation")
+        if false_alarms and not blind:
+            return 2
         if blind:
             for b in blind:
                 print(f"SELFTEST-BLIND property={pid} change={b}: a seeded change this check used to catch no longer produces a violation")
